@@ -61,6 +61,7 @@ func RunC18(k *fw.Case) {
 	injFields := []string{"CO.F1", "CO.F2", "CO.F3", "CO.F4"}
 	for i := 0; i < nRules; i++ {
 		cr := &concRule{name: fmt.Sprintf("c%d", i), base: (i + 1) * 100}
+		var preExisting []string
 		n := 1 + r.Intn(8)
 		wide := r.Intn(4) == 0
 		if wide {
@@ -69,7 +70,7 @@ func RunC18(k *fw.Case) {
 		}
 		usedInj := 0
 		var b strings.Builder
-		fmt.Fprintf(&b, "rule \"%s\" salience %d\nbegin\n  st(%d)\n  pre1 = %d\n  pre2 = %d\n  conc {\n", cr.name, 100-i, cr.base, 7000+i, 8000+i)
+		var mb strings.Builder // members are rendered first: the locals that must pre-exist are known afterwards
 		var after strings.Builder
 		failProb := 0.0
 		if r.Intn(3) == 0 {
@@ -90,6 +91,11 @@ func RunC18(k *fw.Case) {
 			switch cat {
 			case "assign-local":
 				m.Target = fmt.Sprintf("cx%d", j)
+				if r.Intn(3) == 0 {
+					// a local that already exists before the block and is re-assigned inside it
+					m.Target = fmt.Sprintf("px%d", j)
+					preExisting = append(preExisting, m.Target)
+				}
 				if m.Fail {
 					m.Text = fmt.Sprintf("%s = 1 / fl(%d)", m.Target, m.ID)
 				} else {
@@ -132,9 +138,14 @@ func RunC18(k *fw.Case) {
 			if m.Fail {
 				cr.anyFail = true
 			}
-			fmt.Fprintf(&b, "    %s\n", m.Text)
+			fmt.Fprintf(&mb, "    %s\n", m.Text)
 			cr.members = append(cr.members, m)
 		}
+		fmt.Fprintf(&b, "rule \"%s\" salience %d\nbegin\n  st(%d)\n  pre1 = %d\n  pre2 = %d\n", cr.name, 100-i, cr.base, 7000+i, 8000+i)
+		for _, pv := range preExisting {
+			fmt.Fprintf(&b, "  %s = -1\n", pv)
+		}
+		b.WriteString("  conc {\n" + mb.String())
 		cr.afterID = cr.base + 99
 		fmt.Fprintf(&b, "  }\n%s  st(%d)\nend\n", after.String(), cr.afterID)
 		cr.text = b.String()
